@@ -14,10 +14,12 @@
   * `step`    — one command: new state and the calls received by the wrapped builder.
   * `runBuild`— a command sequence followed by `build`.
 
-  Generic in the scalar type `α` (`[Add α] [Sub α]` only): run at `Float32` by the driver,
+  Generic in the scalar type `α` (`[Add α] [Sub α]` only; the branch tests of the arc commands
+  additionally exist numerically over `[Scalar α]`, `numGeo`): run at `Float32` by the driver,
   reasoned about at `Int` / any commutative group in `Props/C15.lean`.  Mathlib-free.
 -/
 import LyonVerif.Model.Path.Trace
+import LyonVerif.Model.Scalar
 
 namespace Lyon.Svg
 open Lyon.Path
@@ -154,7 +156,7 @@ def emitQuads (s : St α) : List (Pt α × Pt α) → St α × Calls α
     ((emitQuads { s with cur := t } r).1, .quad c t () :: (emitQuads { s with cur := t } r).2)
 
 /-- `arc`, the part after the early return: move-to / line-to the arc's start, then the pieces.
-Note that neither `last_cmd` nor `last_ctrl` is touched here. -/
+`last_cmd` is not touched here (it stays whatever `≤ Begin` verb it was, or becomes `Begin`). -/
 def arcCurve (s : St α) (start : Pt α) (near : Bool) (quads : List (Pt α × Pt α)) :
     St α × Calls α :=
   if s.needMoveTo then
@@ -163,10 +165,15 @@ def arcCurve (s : St α) (start : Pt α) (near : Bool) (quads : List (Pt α × P
     ((emitQuads s quads).1, .line start () :: (emitQuads s quads).2)
   else emitQuads s quads
 
-/-- `WithSvg::arc` -/
+/-- `WithSvg::arc` (as repaired by lyon commit 059d9c0c): `last_ctrl = current_position` on
+entry (all that happens on the early return) and again after the pieces were emitted, so that
+a smooth command after the arc reflects nothing whatever `last_cmd` still says. -/
 def arc (s : St α) : ArcOut α → St α × Calls α
   | .skip => ({ s with lastCtrl := s.cur }, [])
-  | .curve start near quads => arcCurve { s with lastCtrl := s.cur } start near quads
+  | .curve start near quads =>
+    ({ (arcCurve { s with lastCtrl := s.cur } start near quads).1 with
+         lastCtrl := (arcCurve { s with lastCtrl := s.cur } start near quads).1.cur },
+     (arcCurve { s with lastCtrl := s.cur } start near quads).2)
 
 /-- `SvgPathBuilder::arc_to` -/
 def arcTo (s : St α) (to : Pt α) : SvgArcOut α → St α × Calls α
@@ -224,6 +231,49 @@ def runBuild (g : Geo α ρ) (zero : α) (cmds : List (Cmd α ρ)) : Calls α :=
   (run g (St.init zero) cmds).2 ++ endIfNeeded (run g (St.init zero) cmds).1
 
 end
+
+/-! ### The branch tests of `arc` / `arc_to`, numerically
+
+The tie instantiates `Geo` with `numGeo`: which branch is taken is decided *here* from the
+operands (radii), the adapter's current position, and lyon_geom's results for that arc
+(centre, start point, pieces) — not by flags computed in the harness. -/
+
+section numeric
+variable [Scalar α] [Transc α]
+
+/-- `SvgArc::is_straight_line`: `|rx| <= EPSILON || |ry| <= EPSILON || from == to` -/
+def isStraightLine (radii from_ to : Pt α) : Bool :=
+  decide (Scalar.abs radii.x ≤ Transc.eps) || decide (Scalar.abs radii.y ≤ Transc.eps) ||
+    (from_.x == to.x && from_.y == to.y)
+
+/-- euclid `Point2D::approx_eq` (`|a - b| < 1.0e-6` on both coordinates) -/
+def approxEqPt (a b : Pt α) : Bool :=
+  decide (Scalar.abs (a.x - b.x) < Scalar.ofSci 1 6) &&
+    decide (Scalar.abs (a.y - b.y) < Scalar.ofSci 1 6)
+
+/-- `(arc_start - self.current_position).square_length() < 0.01` -/
+def nearStart (start cur : Pt α) : Bool :=
+  decide ((start.x - cur.x) * (start.x - cur.x) + (start.y - cur.y) * (start.y - cur.y) <
+    Scalar.ofSci 1 2)
+
+/-- operands of an arc command and what lyon_geom computes for it at the current position:
+the centre (`SvgArc::to_arc().center`, or the given one for `arc`), `Arc::from()` and the
+`(ctrl, to)` pairs of `for_each_quadratic_bezier` -/
+structure ArcOps (α : Type) where
+  radii : Pt α
+  center : Pt α
+  start : Pt α
+  quads : List (Pt α × Pt α)
+
+def arcOutOf (r : ArcOps α) (cur : Pt α) : ArcOut α :=
+  if approxEqPt cur r.center then .skip else .curve r.start (nearStart r.start cur) r.quads
+
+def svgArcOutOf (r : ArcOps α) (cur to : Pt α) : SvgArcOut α :=
+  if isStraightLine r.radii cur to then .straight else .arc (arcOutOf r cur)
+
+def numGeo : Geo α (ArcOps α) := ⟨arcOutOf, svgArcOutOf⟩
+
+end numeric
 end
 
 end Lyon.Svg
